@@ -32,7 +32,13 @@ def run(seed):
             # regression mode: only the properties on record as reporting this seed (meta.json caught_by)
             rec = json.loads(meta_path.read_text()).get("caught_by") or []
             props = [p_ for p_ in built if p_ in rec] or built
+        if os.environ.get("STOP_AT_FIRST"):
+            # the seed's own property first, then the others; stop at the first property that reports it
+            own = seed.split("-")[0]
+            props = [p_ for p_ in props if p_ == own] + [p_ for p_ in props if p_ != own]
         for prop in props:
+            if os.environ.get("STOP_AT_FIRST") and any(v_["exit"] == 1 for v_ in out.values()):
+                break
             p = subprocess.run(["/venv/bin/python", "-m", "vstat", prop, "--repo", wt], cwd=SNAP, capture_output=True, text=True, env=env)
             rules = sorted({l.split()[0] for l in p.stdout.splitlines() if l.startswith("  C")})
             out[prop] = {"exit": p.returncode, "rules": rules}
